@@ -39,6 +39,38 @@ def mask_lab(cfg, rec):
     return rec
 
 
+def partly_rejected_connections():
+    """HTTP connections in which one packet is refused by one protocol analyzer (invalid flag combination, IP fragment, no
+    flags at all) but carries state for another, followed by packets every analyzer accepts: the per-protocol state of the
+    unified analyzer must evolve like that of the protocol analyzers, so the later, commonly accepted packets agree."""
+    out = []
+    R = b"GET /pr HTTP/1.1\r\nHost: pr.example\r\nUser-Agent: pr-agent\r\nAccept: */*\r\n\r\n"
+    S = b"HTTP/1.1 200 OK\r\nServer: pr-srv\r\nContent-Type: text/plain\r\n\r\nok"
+    srv = (10, 8, 0, 2)
+
+    def mf(f):
+        b = bytearray(f)
+        b[20] = 0x20                       # more-fragments
+        return bytes(b)
+    for k, first_flags in enumerate((0x03, 0x06, 0x02)):          # connection opened by SYN+FIN, SYN+RST, plain SYN
+        cli = (10, 8, 1, 1 + k)
+        cp = 42000 + k
+        out.append(c10.frame(cli, srv, cp, 80, 100, 0, first_flags, ipid=9100 + 10 * k))
+        out.append(c10.frame(srv, cli, 80, cp, 500, 101, 0x12, ipid=9101 + 10 * k))
+        out.append(c10.frame(cli, srv, cp, 80, 101, 501, 0x18, R, ipid=9102 + 10 * k))
+        out.append(c10.frame(srv, cli, 80, cp, 501, 101 + len(R), 0x18, S, ipid=9103 + 10 * k))
+    for k, variant in enumerate(("mf", "noflags", "synrst_data", "finrst_data")):     # first half of the head in a packet one analyzer refuses
+        cli = (10, 8, 2, 1 + k)
+        cp = 42100 + k
+        out.append(c10.frame(cli, srv, cp, 80, 100, 0, 0x02, ipid=9200 + 10 * k))
+        out.append(c10.frame(srv, cli, 80, cp, 500, 101, 0x12, ipid=9201 + 10 * k))
+        first = c10.frame(cli, srv, cp, 80, 101, 501, {"mf": 0x18, "noflags": 0x00, "synrst_data": 0x06, "finrst_data": 0x05}[variant], R[:20], ipid=9202 + 10 * k)
+        out.append(mf(first) if variant == "mf" else first)
+        out.append(c10.frame(cli, srv, cp, 80, 121, 501, 0x18, R[20:], ipid=9203 + 10 * k))
+        out.append(c10.frame(srv, cli, 80, cp, 501, 101 + len(R), 0x18, S, ipid=9204 + 10 * k))
+    return out
+
+
 def run(tier, v):
     wd = vlib.workdir(PID)
     vlib.build_harness()
@@ -66,7 +98,7 @@ def run(tier, v):
         traces.append(sorted(frames, key=lambda f: 0) if False else frames)
     # ordered variant: the un-shuffled concatenation gives complete connections
     tr = c10.build_traces(rng, 5)
-    traces.append([f for crate in ("tcp", "http", "tls") for _, f in tr[crate]])
+    traces.append([f for crate in ("tcp", "http", "tls") for _, f in tr[crate]] + partly_rejected_connections())
     cfgs = [{"tcp": a, "http": b, "tls": c, "matcher": m, "db": d} for a in (True, False) for b in (True, False) for c in (True, False) for m in (True, False) for d in (True, False)]
     lines, meta = [], {}
     for ti, frames in enumerate(traces):
